@@ -70,9 +70,9 @@ def multi_sections(n):
 
     surface = {
         "name": "surface", "is_multi_section": True, "num_sections": n, "sec_name": ["sec%d" % i for i in range(n)],
-        "symmetry": True, "S_ref_type": "wetted", "taper": [1.0, 0.8, 0.7][:n], "span": [2.0, 3.0, 1.5][:n],
-        "sweep": [0.0, 5.0, 10.0][:n], "chord_cp": [np.array([1, 1]), np.array([1.0, 0.8]), np.array([0.8, 0.7])][:n],
-        "twist_cp": [np.zeros(2)] * n, "root_chord": 1.0, "meshes": "gen-meshes", "nx": 2, "ny": [2, 3, 2][:n],
+        "symmetry": True, "S_ref_type": "wetted", "taper": [1.0, 0.8, 0.7, 0.9, 0.75][:n], "span": [2.0, 3.0, 1.5, 1.0, 2.5][:n],
+        "sweep": [0.0, 5.0, 10.0, 15.0, 8.0][:n], "chord_cp": [np.array([1, 1]), np.array([1.0, 0.8]), np.array([0.8, 0.7]), np.array([0.7, 0.6]), np.array([0.6, 0.5])][:n],
+        "twist_cp": [np.zeros(2)] * n, "root_chord": 1.0, "meshes": "gen-meshes", "nx": 2, "ny": [2, 3, 2, 2, 3][:n],
         "CL0": 0.0, "CD0": 0.015, "k_lam": 0.05, "c_max_t": 0.303, "with_viscous": False, "with_wave": False,
         "groundplane": False, "root_section": n - 1,
     }
@@ -242,9 +242,11 @@ def build_cases(tier):
     per_surface("MonotonicConstraint", "geometry.monotonic_constraint", "MonotonicConstraint",
                 names=["symL_2x3", "full_2x3"], comp_kw={"var_name": "chord"})
     secs = multi_sections(3 if tier == "thorough" else 2)
-    C.append(Case("GeomMultiUnification(shift)", F("geometry.geometry_unification", "GeomMultiUnification", sections=secs,
+    # four sections (five in thorough): a middle section's tips shift every block further outboard, not only its neighbour
+    secs4 = multi_sections(5 if tier == "thorough" else 4)
+    C.append(Case("GeomMultiUnification(shift)", F("geometry.geometry_unification", "GeomMultiUnification", sections=secs4,
                                                    surface_name="surface", shift_uni_mesh=True)))
-    C.append(Case("GeomMultiUnification", F("geometry.geometry_unification", "GeomMultiUnification", sections=secs,
+    C.append(Case("GeomMultiUnification", F("geometry.geometry_unification", "GeomMultiUnification", sections=secs4,
                                             surface_name="surface", shift_uni_mesh=False)))
     # three sections (two shared edges) and more than one constrained coordinate per edge: the declared rows of the second
     # edge start after *all* constrained coordinates of the first
